@@ -15,14 +15,16 @@ RTV/Model/Re.lean with harness/translate/regexes.py:
 * IGNORECASE is expanded by the translator, `\\d \\s \\w \\b` stay symbolic (tables are a parameter of the matcher);
 * sub-terms that occur more than once (MonthRegex, DayRegex, WeekDayRegex, the year alternatives …) are emitted once as
   `def s<k>` (hash-consing of the right-nested AST), so the terms stay small;
-* a pattern outside the supported subset (or with a tracked group inside a look-around) is emitted as
+* a pattern outside the supported subset (or with a tracked group inside a POSITIVE look-around; inside a negative one the
+  group is made non-capturing: no capture made there survives) is emitted as
   `unsupported` + reason and counted; `dateRegexes` then holds `none` at its index.
 
 RTV/Gen/DateRegexEn.lean (namespace RTV.Gen.DateRegexEn).
 
 Other BaseDateParser cultures of the C06 contract (builder Q2): the same translation of the culture's own `date_regex` list
 and `date_token_prefix` -> RTV/Gen/DateRegex<Cul>.lean, the culture's contract layouts / month names ->
-RTV/Gen/DateLayouts<Cul>.lean (`CULTURES`: es-es -> Es, fr-fr -> Fr, pt-br -> Pt, de-de -> De, ...).  es-mx shares the Spanish
+RTV/Gen/DateLayouts<Cul>.lean (`CULTURES`: es-es -> Es, fr-fr -> Fr, pt-br -> Pt, de-de -> De, it-it -> It, nl-nl -> Nl; the
+last two feed the driver / correspondence only, no Props file).  es-mx shares the Spanish
 configuration: the Spanish file records whether the es-mx pattern list is identical (`esmxSameRegexes`) and carries the
 es-mx layouts.  A layout with the French `{d1er}` placeholder (`1er`, day 1 only) goes to the separate list `layouts<Cul>Day1`
 as `.d, e, r`."""
@@ -42,7 +44,7 @@ NAMES = ['DateExtractor1', 'DateExtractor3', 'DateExtractor4', 'DateExtractor5',
          'DateExtractor7S', 'DateExtractor8', 'DateExtractor9L', 'DateExtractor9S', 'DateExtractorA']
 
 # culture -> suffix of the generated modules; the English files keep their historical shape
-CULTURES = [('en-us', 'En'), ('es-es', 'Es'), ('fr-fr', 'Fr'), ('pt-br', 'Pt'), ('de-de', 'De')]
+CULTURES = [('en-us', 'En'), ('es-es', 'Es'), ('fr-fr', 'Fr'), ('pt-br', 'Pt'), ('de-de', 'De'), ('it-it', 'It'), ('nl-nl', 'Nl')]
 SUFFIX = dict(CULTURES)
 LANGNAME = {'en-us': 'English', 'es-es': 'Spanish', 'fr-fr': 'French', 'pt-br': 'Portuguese', 'de-de': 'German',
             'it-it': 'Italian', 'nl-nl': 'Dutch'}
@@ -91,11 +93,14 @@ def _fix(n, num2name, icase, in_look):
     if k == 'grp':
         name = num2name.get(n[1])
         idx = TRACKED.get(name, 0)
-        if idx and in_look:
+        if idx and in_look == 'neg':
+            idx = 0     # inside a NEGATIVE look-around: the engine keeps no capture made there (the assertion holds only
+            #             when the body does not match); the model drops captures of look-arounds likewise
+        elif idx and in_look:
             raise R.Unsupported('named group %s inside a look-around assertion' % name)
         return ('grp', idx, _fix(n[2], num2name, icase, in_look))
     if k == 'look':
-        return ('look', n[1], n[2], _fix(n[3], num2name, icase, True))
+        return ('look', n[1], n[2], _fix(n[3], num2name, icase, 'neg' if (n[2] or in_look == 'neg') else True))
     return n
 
 
@@ -108,6 +113,8 @@ def parse(pattern, flags):
         text = text.replace('\\p{L}', PUA)
         if '\\p{' in text or '\\P{' in text:
             raise R.Unsupported('Unicode property other than \\p{L}')
+    # `^?` (an optional anchor: the `regex` module accepts it, CPython's parser does not) matches the empty string always
+    text = re.sub(r'(?<![\\\[])\^\?', '(?:)', text)
     text, back = _rename_groups(text)
     ast = R.parse(text, flags)
     num2name = {num: back.get(nm, nm) for nm, num in R.LAST_GROUPS.items()}
